@@ -143,3 +143,11 @@ Definition planner_case_ok
   | Some (m, cs), Some (mi, ci) => (method_code m =? mi) && cohorts_eqb cs ci
   | _, _ => false
   end.
+
+(* ---- engine kernel cases (K2): generic_aggregate called directly ---- *)
+From Flox Require Import Engines.
+(* (engine: 0 = flox, 1 = numpy/numba ; op ; fill ; size ; codes ; vals ; impl result per slot) *)
+Definition kernel_case_ok (c : Z * opname * xval * nat * list Z * list xval * list xval) : bool :=
+  let '(eng, o, fill, size, codes, vals, impl) := c in
+  let k := if eng =? 0 then flox_kernel o fill codes vals else npg_kernel o fill codes vals in
+  forallb2 xval_eqb (map k (zrange 0 size)) impl.
